@@ -46,7 +46,7 @@ fn small_combo(k: u64) -> (usize, usize, u64, u64) {
 }
 
 fn run(cx: &mut Cx, mode: Mode) {
-    cx.preemptions_left = cx.ch.choose("preemptions", 3) as u32;
+    cx.preemptions_left = cx.ch.choose("preemptions", 5) as u32;
     let ideal: Shared = Rc::new(RefCell::new(Ideal::default()));
     let issuer = cx.node("issuer");
     let holder = cx.node("holder");
